@@ -17,7 +17,7 @@ EXHAUSTIVE = ["8 switch subsets for ML and MAP", "all argmin paths of one k-mean
 OUTSIDE = ["sizes beyond those listed", "overflow by magnitude outside exp", "rounding"]
 K_EMPTY = "C13-kmeans-empty-cluster-nan-centroid"
 K_EMPTYV = "C13-kmeans-empty-cluster-nan-variance"
-SIZES = {"quick": [(2, 1), (2, 2)], "thorough": [(2, 1), (2, 2), (3, 2), (3, 3)]}
+SIZES = {"quick": [(2, 1), (2, 2)], "thorough": [(2, 1), (2, 2), (3, 2)]}
 
 
 def bounds(tier):
